@@ -133,4 +133,15 @@ Proof.
     apply (read_value_number_written float_ok a w s b0 k f d v Hfirst Hw); [| |exact Hv|exact Hr|lia];
       destruct Hb0 as [-> | ->]; first [vm_compute; reflexivity | lia].
 Qed.
+(* ... and a variable *)
+Lemma variable_elem_reads (w : list byte) d :
+  w <> [] -> Forall (fun b => is_token b = true) w ->
+  elem_reads (length w + 2) d (36 :: w) (PVar w).
+Proof.
+  intros Hne Hw. split.
+  - exists 36, w. repeat split; try lia.
+  - intros f s b0 k Hm Hb0 Hr.
+    apply (read_value_variable_written float_ok w s b0 k f d Hne Hw); [| |exact Hr|lia];
+      destruct Hb0 as [-> | ->]; first [vm_compute; reflexivity | lia].
+Qed.
 End Lists.
